@@ -20,7 +20,7 @@ theorem look_facts :
     look e2eMem0 (3300 * msNs) = some (true, 1) ∧ look e2eMem0 (3550 * msNs) = some (true, 1) ∧
     look e2eMem3 (3950 * msNs) = some (false, 4) ∧
     look e2eMem0 (3700 * msNs) = some (true, 1) ∧ look e2eMem0 (4600 * msNs) = none ∧
-    (e2eMem0 0).isSome = true := by decide
+    (e2eMem0 0).map (·.expTick) = some 4 := by decide
 
 theorem look_some (mem : Mem) (t : Nat) (b : Bool) (ttl : Nat) (h : look mem t = some (b, ttl)) :
     ∃ sv e, cacheGet e2eClock mem 0 t = some (sv, e) ∧ needPrefetch e.stored e.expire t = b ∧
@@ -186,12 +186,13 @@ theorem finalOk (n : Nat) (hn : 0 < n) :
     rw [List.getElem?_set_self (by rw [c3, len2]; omega)]
     simp [ttl3]
 
-/-- a refresh that ends badly (mode 1: the exchange fails, mode 2: NXDOMAIN while the entry is still there): the
-    cache is unchanged, the reservation released -/
+/-- a refresh that ends badly (mode 1: the exchange fails, mode 2: NXDOMAIN): the reservation is released; the
+    cache is unchanged when the exchange failed, or when the NXDOMAIN comes while the entry is still alive (before
+    tick 4 of the cache clock) -/
 theorem bad_refresh (mode : Nat) (hm : mode = 1 ∨ mode = 2) (S : State) (j t : Nat)
     (hr : S.refreshers[j]? = some ⟨0, 0, .spawned⟩) (hmem : S.mem = e2eMem0) :
     ∃ S', run e2eParams S [.forward j (e2eOutcome mode), .store j t 0, .done j] = S' ∧
-      S'.mem = e2eMem0 ∧ S'.clients = S.clients ∧ S'.queue = done S.queue 0 ∧
+      ((mode = 1 ∨ e2eClock t < 4) → S'.mem = e2eMem0) ∧ S'.clients = S.clients ∧ S'.queue = done S.queue 0 ∧
       S'.refreshers = S.refreshers.set j ⟨0, 0, .finished⟩ := by
   obtain ⟨hj, -⟩ := getElem?_some _ _ _ hr
   simp only [run, step]
@@ -208,27 +209,38 @@ theorem bad_refresh (mode : Nat) (hm : mode = 1 ∨ mode = 2) (S : State) (j t :
         = { S with queue := done S.queue 0, refreshers := (S.refreshers.set j ⟨0, 0, .finishing⟩).set j ⟨0, 0, .finished⟩ } := by
       simp only [doneStep, g1]
     rw [f1, f2, f3]
-    exact ⟨_, rfl, hmem, rfl, rfl, by simp⟩
+    exact ⟨_, rfl, fun _ => hmem, rfl, rfl, by simp⟩
   · subst hm
-    obtain ⟨e0, he0⟩ := Option.isSome_iff_exists.1 look_facts.2.2.2.2.2
-    have hneg : cacheStore e2eParams.clock e2eParams.cfg e2eMem0 0 (some (removeEDNS0 ⟨3, false, [], [], []⟩)) t 0 S.nextId
-        = e2eMem0 :=
-      cacheStore_neg_present _ _ _ _ _ _ _ _ e0 (by decide) he0
+    have hneg : e2eClock t < 4 → cacheStore e2eParams.clock e2eParams.cfg e2eMem0 0 (some (removeEDNS0 ⟨3, false, [], [], []⟩)) t 0 S.nextId
+        = e2eMem0 := by
+      intro hl
+      have hf := look_facts.2.2.2.2.2
+      cases he0 : e2eMem0 0 with
+      | none => rw [he0] at hf; cases hf
+      | some e0 =>
+        rw [he0] at hf
+        simp only [Option.map_some, Option.some.injEq] at hf
+        exact cacheStore_neg_present _ _ _ _ _ _ _ _ e0 (by decide) he0 (by rw [hf]; exact hl)
+    generalize hM : cacheStore e2eParams.clock e2eParams.cfg e2eMem0 0 (some (removeEDNS0 ⟨3, false, [], [], []⟩)) t 0 S.nextId = M at hneg
     have f1 : forwardStep S j (e2eOutcome 2)
         = { S with refreshers := S.refreshers.set j ⟨0, 0, .fetched (removeEDNS0 ⟨3, false, [], [], []⟩)⟩ } := by
       simp [forwardStep, hr, e2eOutcome]
     have g1 : ({ S with refreshers := S.refreshers.set j ⟨0, 0, .fetched (removeEDNS0 ⟨3, false, [], [], []⟩)⟩ } : State).refreshers[j]?
         = some ⟨0, 0, .fetched (removeEDNS0 ⟨3, false, [], [], []⟩)⟩ := by simp [List.getElem?_set, hj]
     have f2 : storeStep e2eParams { S with refreshers := S.refreshers.set j ⟨0, 0, .fetched (removeEDNS0 ⟨3, false, [], [], []⟩)⟩ } j t 0
-        = { S with mem := e2eMem0, nextId := S.nextId + 1, refreshers := (S.refreshers.set j ⟨0, 0, .fetched (removeEDNS0 ⟨3, false, [], [], []⟩)⟩).set j ⟨0, 0, .finishing⟩ } := by
-      simp only [storeStep, g1, hmem, hneg]
-    have g2 : ({ S with mem := e2eMem0, nextId := S.nextId + 1, refreshers := (S.refreshers.set j ⟨0, 0, .fetched (removeEDNS0 ⟨3, false, [], [], []⟩)⟩).set j ⟨0, 0, .finishing⟩ } : State).refreshers[j]?
+        = { S with mem := M, nextId := S.nextId + 1, refreshers := (S.refreshers.set j ⟨0, 0, .fetched (removeEDNS0 ⟨3, false, [], [], []⟩)⟩).set j ⟨0, 0, .finishing⟩ } := by
+      simp only [storeStep, g1, hmem, hM]
+    have g2 : ({ S with mem := M, nextId := S.nextId + 1, refreshers := (S.refreshers.set j ⟨0, 0, .fetched (removeEDNS0 ⟨3, false, [], [], []⟩)⟩).set j ⟨0, 0, .finishing⟩ } : State).refreshers[j]?
         = some ⟨0, 0, .finishing⟩ := by simp [List.getElem?_set, hj]
-    have f3 : doneStep { S with mem := e2eMem0, nextId := S.nextId + 1, refreshers := (S.refreshers.set j ⟨0, 0, .fetched (removeEDNS0 ⟨3, false, [], [], []⟩)⟩).set j ⟨0, 0, .finishing⟩ } j
-        = { S with mem := e2eMem0, nextId := S.nextId + 1, queue := done S.queue 0, refreshers := ((S.refreshers.set j ⟨0, 0, .fetched (removeEDNS0 ⟨3, false, [], [], []⟩)⟩).set j ⟨0, 0, .finishing⟩).set j ⟨0, 0, .finished⟩ } := by
+    have f3 : doneStep { S with mem := M, nextId := S.nextId + 1, refreshers := (S.refreshers.set j ⟨0, 0, .fetched (removeEDNS0 ⟨3, false, [], [], []⟩)⟩).set j ⟨0, 0, .finishing⟩ } j
+        = { S with mem := M, nextId := S.nextId + 1, queue := done S.queue 0, refreshers := ((S.refreshers.set j ⟨0, 0, .fetched (removeEDNS0 ⟨3, false, [], [], []⟩)⟩).set j ⟨0, 0, .finishing⟩).set j ⟨0, 0, .finished⟩ } := by
       simp only [doneStep, g2]
     rw [f1, f2, f3]
-    exact ⟨_, rfl, rfl, rfl, rfl, by simp⟩
+    refine ⟨_, rfl, ?_, rfl, rfl, by simp⟩
+    intro h
+    rcases h with h | h
+    · cases h
+    · exact hneg h
 
 set_option maxRecDepth 100000 in
 /-- modes 1 and 2, for every `n ≥ 1` -/
@@ -242,7 +254,8 @@ theorem finalBad (mode : Nat) (hm : mode = 1 ∨ mode = 2) (n : Nat) (hn : 0 < n
   obtain ⟨h1, ttl1, m1, -, q1, r1, c1⟩ := afterWave1 n hn
   have len1 : (e2eAfterWave1 n).clients.length = 2 * n + 2 := by rw [c1, markRange_length, base_len]
   -- the first refresh ends badly
-  obtain ⟨S2, hs2, m2, c2, q2, r2⟩ := bad_refresh mode hm (e2eAfterWave1 n) 0 (3600 * msNs) (by rw [r1]; rfl) m1
+  obtain ⟨S2, hs2, m2', c2, q2, r2⟩ := bad_refresh mode hm (e2eAfterWave1 n) 0 (3600 * msNs) (by rw [r1]; rfl) m1
+  have m2 : S2.mem = e2eMem0 := m2' (Or.inr (by decide))
   rw [r1] at r2
   have q2' : S2.queue 0 = false := by rw [q2]; simp [done]
   -- 100 ms later: still served (TTL 1), and the next refresh starts
@@ -260,7 +273,7 @@ theorem finalBad (mode : Nat) (hm : mode = 1 ∨ mode = 2) (n : Nat) (hn : 0 < n
   have m3 : S3.mem = e2eMem0 := by rw [hs3]; exact m2
   have r3 : S3.refreshers = [⟨0, 0, .finished⟩, ⟨0, 0, .spawned⟩] := by rw [hs3]; simp [r2, e2eParams]
   -- the second refresh ends the same way
-  obtain ⟨S4, hs4, m4, c4, -, r4⟩ := bad_refresh mode hm S3 1 (4000 * msNs) (by rw [r3]; rfl) m3
+  obtain ⟨S4, hs4, m4', c4, -, r4⟩ := bad_refresh mode hm S3 1 (4000 * msNs) (by rw [r3]; rfl) m3
   rw [r3] at r4
   have len2 : S2.clients.length = 2 * n + 2 := by rw [c2, len1]
   have cw : ∀ i, i < n → S4.clients[0 + i]? = some ⟨0, .responded h1⟩ := by
@@ -280,6 +293,7 @@ theorem finalBad (mode : Nat) (hm : mode = 1 ∨ mode = 2) (n : Nat) (hn : 0 < n
     have cl5 : S4.clients[2 * n + 1]? = some ⟨0, .start⟩ := by
       rw [c4, c3, List.getElem?_set_ne (by omega), c2, c1, markRange_get_out _ _ _ _ _ (by omega)]
       exact init_clients _ _ _ _ (by omega)
+    have m4 : S4.mem = e2eMem0 := m4' (Or.inl rfl)
     have hs5 := client_run_miss e2eParams S4 (2 * n + 1) (4600 * msNs) 0 cl5 (by rw [m4]; exact g5)
     have hfinal : e2eFinalBad 1 n 300 = { S4 with clients := S4.clients.set (2 * n + 1) ⟨0, .missed⟩ } := by
       unfold e2eFinalBad e2eT1
